@@ -204,7 +204,14 @@ def determinism_inputs(chk):
     chk.add_tlc("MC_TetrisCompile (inputs)", r)
     chk.tlc_must_pass("MC_TetrisCompile (C20 inputs)", r)
     good = [c for c in r.cases if c["wf_period"] and (c["cell"]["assigns"] or c["cell"]["insts"])]
-    return [("tetris2raw", f"compile{i}", {"stack": c["stack"], "cell": c["cell"]}) for i, c in enumerate(good[::max(1, len(good) // 25)])]
+    out = [("tetris2raw", f"compile{i}", {"stack": c["stack"], "cell": c["cell"]}) for i, c in enumerate(good[::max(1, len(good) // 25)])]
+    # fan-out: a top cell listed before the four cells it instantiates (and after them), on a two-layer stack
+    two = next(c for c in r.cases if len(c["stack"]["metals"]) == 2 and c["wf_period"])
+    insts = [{"w": 1, "h": 1, "m": 1, "x": k, "y": k, "rh": False, "rv": False} for k in range(4)]
+    for pf in (True, False):
+        cell = {"nx": 4, "ny": 4, "metals": 2, "cuts": [], "assigns": [], "insts": insts, "parent_first": pf}
+        out.append(("tetris2raw", f"fanout-{'parent' if pf else 'children'}-first", {"stack": two["stack"], "cell": cell}))
+    return out
 
 
 def replay(chk, path):
